@@ -34,9 +34,13 @@ func clearBlock(msg, body []byte) int {
 
 // genPlain: plaintexts with high-entropy blocks so that an accidental match is impossible.
 func genPlain(t *rapid.T, maxLen int, sizes []int) []byte {
-	n := rapid.SampledFrom(append(sizes, -1)).Draw(t, "ptlen")
+	n := rapid.SampledFrom(append(append([]int(nil), sizes...), -1, -2)).Draw(t, "ptlen")
+	if n == -2 {
+		// around a power of two: 2^k + j (stream ciphers and XOFs work in blocks and scratch buffers)
+		n = 1<<uint(rapid.IntRange(4, 12).Draw(t, "ptlen.k")) + rapid.SampledFrom([]int{-1, 0, 1, 9}).Draw(t, "ptlen.j")
+	}
 	if n < 0 || n > maxLen {
-		n = rapid.IntRange(0, maxLen).Draw(t, "ptlen.any")
+		n = uniformInt(t, 0, maxLen, "ptlen.any")
 	}
 	seed := genSeed(t, "ptseed")
 	out := make([]byte, n)
@@ -512,7 +516,7 @@ func c16Anon(t *rapid.T, ev *evProp) {
 	keygen := rapid.SampledFrom(keygenModes).Draw(t, "keygen")
 	privs, pubs := genKeyPairs(keySuite{suite, ks}, keygen, n)
 	set := anon.Set(pubs)
-	msg := genPlain(t, 600, []int{0, 1, 15, 16, 17, 32, 64, 600})
+	msg := genPlain(t, 4200, []int{0, 1, 15, 16, 17, 32, 64, 600, 1025, 2049})
 	ctx := fmt.Sprintf("anon-enc suite=%s n=%d mine=%d |msg|=%d keygen=%s", name, n, mine, len(msg), keygen)
 	key := func(w string) string { return "C16/anon/" + name + "/" + w }
 	if why := keyPairsValid(suite, privs, pubs); why != "" {
